@@ -628,4 +628,183 @@ theorem loadPaths_range {s0 s' : St} {paths : List (Nat × List Rat × List Rat)
   rw [show rest.length + 1 = 0 + 1 + rest.length from by omega]
   exact this
 
+/-! ### the restart: a state written from the invariant starts the re-issue phase -/
+
+theorem filterMap_id_somes : ∀ (l : List (Option Nat)), (∀ x ∈ l, ∃ pn, x = some pn) →
+    (l.filterMap id).map some = l := by
+  intro l
+  induction l with
+  | nil => intro _; rfl
+  | cons x l ih =>
+    intro h
+    obtain ⟨pn, rfl⟩ := h x (List.mem_cons_self ..)
+    have e := ih (fun y hy => h y (List.mem_cons_of_mem _ hy))
+    simp only [List.filterMap_cons, id_eq, List.map_cons]
+    exact congrArg (some pn :: ·) e
+
+theorem filterMap_map_some {β : Type} (g : Nat → β) (pns : List Nat) :
+    (pns.map some).filterMap (fun o => o.map g) = pns.map g := by
+  induction pns with
+  | nil => rfl
+  | cons x l ih => simp [ih]
+
+/-- the record the restart file keeps of a job in flight: slots and path numbers -/
+def jobRec0 (j : Job) : List Nat × List Nat := (j.picked.map slotOf, j.picked.map (·.pn))
+
+theorem recOf_jobRec0 (j : Job) (h : ∀ p ∈ j.picked, -1 ≤ p.ens) : recOf (jobRec0 j) = jobRec j := by
+  unfold recOf jobRec0 jobRec
+  simp only [List.map_map, Prod.mk.injEq, and_true]
+  apply List.map_congr_left
+  intro p hp
+  have := h p hp
+  simp only [Function.comp_apply, slotOf]
+  omega
+
+/-- **restart from an image written from the invariant** (between events: `NInv.mid`; at the write
+    inside `treat_output`: `midState_inv`), same number of ensembles, any workers / steps / engine
+    table / recomputed weights: the restored state starts the re-issue phase — every record names an
+    idle slot holding its path, the ordinals wait with the records, and the counter is the old one. -/
+theorem restart_pinv {s s' : St} {jobs : List Job} (hm : MidInv s jobs) {workers tsteps : Nat}
+    {occ : List (List Int)} {ensEng : List (List Nat)} {weightOf : Nat → List Rat}
+    (h : restore (persist s) s.n workers tsteps occ ensEng weightOf = .ok s') :
+    PInv { s := s', jobs := [] } s.lockedOrd ∧ s'.locked0 = jobs.map jobRec0 ∧
+      s'.seed = s.seed ∧ s'.entropy = s.seed ∧ s'.spawned = s.spawned ∧ s'.cstep = s.cstep ∧
+      s'.mainDraws = 0 ∧ s'.restarted = true ∧ s'.rgenRestored = false := by
+  have hc := hm.core
+  obtain ⟨r1, r2, r3, r4, r5, r6, r7, r8⟩ := restore_continues hm.count h
+  obtain ⟨_, _, _, _, _, _, t7, _, t9, t10⟩ := restore_spec h
+  have hl0 : s'.locked0 = jobs.map jobRec0 := by
+    rw [t7]
+    simp only [persist, hm.recd, List.map_map]
+    apply List.map_congr_left
+    intro j _
+    simp [jobRec, jobRec0, slotOf, off, List.map_map, Function.comp_def]
+  have hmd : s'.mainDraws = 0 := by
+    unfold restore at h
+    exact (loadPaths_quiet h).1.mainDraws
+  unfold restore at h
+  simp only [] at h
+  -- the live paths: n − 1 path numbers in slot order
+  have hact : (persist s).active = s.trajs.dropLast := rfl
+  have hlen : (s.trajs.dropLast).length = s.n - 1 := by simp [hc.lenT]
+  have hget : ∀ i, i < s.n - 1 → (s.trajs.dropLast)[i]? = s.trajs[i]? := by
+    intro i hi
+    rw [List.getElem?_dropLast, if_pos (by rw [hc.lenT]; exact hi)]
+  have hsomes : ∀ x ∈ s.trajs.dropLast, ∃ pn, x = some pn := by
+    intro x hx
+    obtain ⟨i, hi⟩ := List.mem_iff_getElem?.mp hx
+    have hilt : i < s.n - 1 := by rw [← hlen]; exact getElem?_lt_of_some _ _ _ hi
+    obtain ⟨pn, hpn, _⟩ := hc.live i hilt
+    rw [hget i hilt, hpn] at hi
+    exact ⟨pn, by simpa using hi.symm⟩
+  have hmap := filterMap_id_somes (s.trajs.dropLast) hsomes
+  generalize hp : (s.trajs.dropLast).filterMap id = pns at hmap
+  have hpl : pns.length = s.n - 1 := by rw [← hlen, ← hmap, List.length_map]
+  rw [hact, ← hmap, filterMap_map_some] at h
+  have R := loadPaths_range (by simp [blank]) h
+  simp only [List.length_map, List.map_map] at R
+  have hfe : ∀ e, e < s.n - 1 → s.trajs[e]? = some (some ((pns.map id).getD e 0)) := by
+    intro e he
+    rw [← hget e he, ← hmap, List.getElem?_map, List.map_id, List.getD_eq_getElem?_getD,
+      List.getElem?_eq_getElem (by omega)]
+    rfl
+  have hcomp : ((fun x : Nat × List Rat × List Rat => x.1) ∘ fun pn =>
+      (pn, weightOf pn, (List.lookup pn (persist s).frac).getD (List.replicate s.n 0))) = id := rfl
+  rw [hcomp, hpl] at R
+  have hn' : s'.n = s.n := R.n
+  have hin : ∀ e, e < s.n - 1 → s'.trajs[e]? = s.trajs[e]? ∧ s'.locks[e]? = some false ∧
+      entryM s'.W e e ≠ 0 := by
+    intro e he
+    obtain ⟨_, a2, a3, a4⟩ := R.inside e (Nat.zero_le _) he
+    exact ⟨by rw [a2, hfe e he], a3, a4⟩
+  have hn2 := hc.n2
+  have hghost : s'.locks[s.n - 1]? = some true := by
+    rw [(R.outside (s.n - 1) (Or.inr (Nat.le_refl _))).2.1]
+    show (List.replicate s.n true)[s.n - 1]? = some true
+    rw [List.getElem?_replicate, if_pos (by omega)]
+  have hcore : Core (strip s') [] s.trajNum := by
+    constructor
+    · show 2 ≤ s'.n; rw [hn']; exact hn2
+    · show s'.W.length = s'.n; rw [R.lenW, hn']; simp [blank]
+    · show s'.trajs.length = s'.n; rw [R.lenT, hn']; simp [blank]
+    · show s'.locks.length = s'.n; rw [R.lenL, hn']; simp [blank]
+    · show s'.locks[s'.n - 1]? = some true; rw [hn']; exact hghost
+    · intro e he
+      have he' : e < s.n - 1 := by
+        have : (strip s').n = s'.n := rfl
+        rw [this, hn'] at he; exact he
+      show s'.locks[e]? = some true ↔ _
+      rw [(hin e he').2.1]
+      simp
+    · simp
+    · intro e pn hm'; simp at hm'
+    · intro e he
+      have he' : e < s.n - 1 := by
+        have : (strip s').n = s'.n := rfl
+        rw [this, hn'] at he; exact he
+      show ∃ pn, s'.trajs[e]? = some (some pn) ∧ pn < s.trajNum
+      rw [(hin e he').1]
+      exact hc.live e he'
+    · intro a b pn ha hb h1 h2
+      have ha' : a < s.n - 1 := by
+        have : (strip s').n = s'.n := rfl
+        rw [this, hn'] at ha; exact ha
+      have hb' : b < s.n - 1 := by
+        have : (strip s').n = s'.n := rfl
+        rw [this, hn'] at hb; exact hb
+      have h1' : s.trajs[a]? = some (some pn) := by rw [← (hin a ha').1]; exact h1
+      have h2' : s.trajs[b]? = some (some pn) := by rw [← (hin b hb').1]; exact h2
+      exact hc.inj a b pn ha' hb' h1' h2'
+    · rfl
+  have htn : s'.trajNum = s.trajNum := by rw [R.trajNum]; rfl
+  refine ⟨?_, hl0, r1, r2, r3, r7, hmd, t9, t10⟩
+  constructor
+  · show Core (strip s') (held []) s'.trajNum
+    rw [htn]; exact hcore
+  · intro j hj; simp at hj
+  · show s'.locked = [].map jobRec
+    rw [r4]; rfl
+  · show s'.lockedOrd.length = 0
+    rw [r5]; rfl
+  · intro jo hjo; simp at hjo
+  · -- every record describes the restored state
+    intro r hr
+    show RecOK s' r
+    rw [hl0] at hr
+    obtain ⟨j, hj, rfl⟩ := List.mem_map.mp hr
+    have hsh := hm.shape j hj
+    refine ⟨by simp [jobRec0], ?_, ?_⟩
+    · rcases hsh.shape with h1 | h1
+      · left; simpa [jobRec0] using h1
+      · right
+        have : j.picked.map slotOf = (j.picked.map (·.ens)).map (fun e => (e + 1).toNat) := by
+          simp [List.map_map, Function.comp_def, slotOf]
+        show j.picked.map slotOf = [0, 1]
+        rw [this, h1]; rfl
+    · intro x hx
+      have hxh : x ∈ held jobs := by
+        simp only [jobRec0, List.zip_map'] at hx
+        exact List.mem_flatMap.mpr ⟨j, hj, hx⟩
+      obtain ⟨e1, e2, _⟩ := hc.heldOk x.1 x.2 hxh
+      obtain ⟨i1, i2, i3⟩ := hin x.1 e1
+      exact ⟨by rw [hn']; exact e1, by rw [i1]; exact e2, i2, i3⟩
+  · show (s'.locked0.flatMap (·.1)).Nodup
+    have e : (jobs.map jobRec0).flatMap (·.1) = (held jobs).map Prod.fst := by
+      simp only [held, heldJob, jobRec0, List.flatMap_map, List.map_flatMap, List.map_map, Function.comp_def]
+    rw [hl0, e]
+    exact hc.nodup
+  · show s'.locked0Ord = s.lockedOrd.map some
+    exact r8
+  · show s.lockedOrd.length = s'.locked0.length
+    rw [hl0, List.length_map, hm.ordLen]
+  · show s'.spawned = s'.cstep + s'.locked.length + s'.locked0.length
+    rw [r3, r7, r4, r6, hm.count]; simp
+  · intro o ho
+    show o < s'.spawned
+    rw [r3]
+    rw [show ({ s := s', jobs := [] } : Sys).s.lockedOrd = s'.lockedOrd from rfl, r5] at ho
+    exact hm.ordLt o (by simpa using ho)
+  · show (s'.lockedOrd ++ s.lockedOrd).Nodup
+    rw [r5]; simpa using hm.ordNodup
+
 end Infretis.Repex
